@@ -502,6 +502,8 @@ func vfC08Run(t *testing.T, cs vfC08Case, out *vfC08Out, isKnown func(string) bo
 		var cancels []context.CancelFunc
 		defer func() {
 			// every return path must let the handler goroutines exit before the bubble ends
+			w.Gates.ReleaseAll()
+			vfSettle()
 			for _, c := range cancels {
 				c()
 			}
@@ -641,8 +643,10 @@ func vfC08Run(t *testing.T, cs vfC08Case, out *vfC08Out, isKnown func(string) bo
 			closeIssued[k] = false
 			out.label("sub_gate_auto_released")
 		}
+		closeSinceSettle := map[*vfC08ConnState]bool{} // a closing operation was started and quiescence not yet awaited
 		guardClose := func(targets []*vfC08ConnState) {
 			for _, k := range targets {
+				defer func(k *vfC08ConnState) { closeSinceSettle[k] = true }(k)
 				if !gatedSubPending(k) {
 					closeIssued[k] = false
 					continue
@@ -731,6 +735,8 @@ func vfC08Run(t *testing.T, cs vfC08Case, out *vfC08Out, isKnown func(string) bo
 						w.Gates.Disarm("sub:" + k.conn.Name)
 					} else if s.Gate {
 						k.gatedSub = true
+						// a closing operation started together with this subscribe counts as the one allowed close
+						closeIssued[k] = closeSinceSettle[k]
 					}
 				}
 			case vfC08UnsubCmd:
@@ -811,6 +817,9 @@ func vfC08Run(t *testing.T, cs vfC08Case, out *vfC08Out, isKnown func(string) bo
 			inPar = s.Par
 			if !s.Par || si == len(cs.Steps)-1 {
 				vfSettle()
+				for k := range closeSinceSettle {
+					delete(closeSinceSettle, k)
+				}
 			}
 		}
 
